@@ -20,6 +20,7 @@ def main():
     pid = a.pid.upper()
     seed = int(os.environ.get('VERIF_SEED', '0'))
     tier = a.tier if a.tier in ('quick', 'thorough') else 'quick'
+    os.environ['VERIF_TIER'] = tier
     mod = importlib.import_module(f'harness.props.{pid.lower()}')
     if a.replay:
         rec = json.load(open(a.replay))
